@@ -29,7 +29,11 @@ RULE = ("seeded envelope generator (independent writer, pycryptodome): payload l
         "key, AAD presence flipped, single-byte alterations of attribute bytes / ciphertext / tag / AAD (must all fail). "
         "Companion cases (model tie only): alterations of discarded header bytes, terminator, fixed header, footer fields and "
         "gate variants. Keystore sequences parsed in ONE process (same keyId/data1, different data2, repeats) and mangled "
-        "keystore texts (base64 / url-quoting / nesting edge cases). Answers D<len>:<crc32> | E | K<id>:<key>.")
+        "keystore texts (base64 / url-quoting / nesting edge cases). On every run: same-object histories (one Envelope object "
+        "decrypted 2-4 times: right key twice, after a wrong-AAD / wrong-key refusal, around decrypts of tampered copies, with the caller "
+        "moving the shared handle in between; verify on and off) and envelopes whose encrypted data crosses the 4 / 8 MiB decrypt chunk "
+        "(payload + padding + footer block ending exactly at / just before / just behind the boundary, paddings 0, 1, 17, 4095; API and CLI; "
+        "real code vs construction only). Answers D<len>:<crc32> | E | K<id>:<key>.")
 ASSUMPTIONS = ["hashlib SHA-256 / PBKDF2-HMAC-SHA256 and pycryptodome AES-GCM are parameters of the model (a finite table computed by the "
                "harness with the same libraries for exactly the model's calls); GCM's own authenticity is the library's",
                "modelled, not verified: cstruct reads/writes, CPython float32<->double conversion, str.strip/split/partition, "
@@ -167,6 +171,64 @@ def _ksfuzz_recipe(rng, i):
     return {"text": eol.join(body) + rng.choice(["", eol])}
 
 
+# same-object histories: every template is a list of steps on Envelope OBJECTS that live for the whole history
+#   g = right key + right associated data on the intact envelope (object "a")      -> the payload, every time
+#   a = wrong associated data (presence flipped / one byte altered), k = wrong key   -> refused
+#   t = a decrypt on the object of a copy with one ciphertext byte altered, T = one tag byte altered -> refused
+#   s = the caller moves the shared file handle of object "a" (no answer), then g
+HIST_TEMPLATES = ["gg", "ggg", "ag", "kg", "akg", "gag", "gkg", "tg", "gtg", "gTtg", "ttg", "sg", "gsg", "asg"]
+MIB = 1024 * 1024
+CHUNK = 4 * MIB          # the envelope's decrypt chunk (a fact of the format reader, only used to place the directed sizes)
+
+
+def _no_snan(r):
+    for a in r["attrs"]:
+        if a.get("type") == 9:
+            a["value"] &= ~0x7F800000 & 0xFFFFFFFF      # finite (a signalling NaN is the separate known finding D27)
+    return r
+
+
+def _hist_cases(rng, tier):
+    """directed: every quick run holds every history template, with and without associated data, verify on and off"""
+    out = []
+    n = 8 if tier == "quick" else 48
+    for i in range(n):
+        r = _no_snan(_env_recipe(rng, tier, 20 + i))     # 20+: no forced size / attribute layout (random recipe)
+        r["plen"], r["padding"] = [(0, 0), (1, 4095), (4096, 0), (5000, 17), (3 * 4096 + 5, 1), (8192, 0), (4095, 1), (100, 0)][i % 8]
+        r["aad"] = rng.randbytes(rng.choice([1, 16, 33])).hex() if i % 2 == 0 else None
+        qs = [f"hist:{t}" for t in HIST_TEMPLATES] + [f"hist_nv:{t}" for t in ("gg", "kg", "gsg")]
+        out.append({"id": f"h{i}", "kind": "env", "recipe": r, "tseed": rng.randrange(1 << 30), "queries": qs})
+    return out
+
+
+def _chunk_sizes(k):
+    """(payload length, padding) around the k-th decrypt-chunk boundary, one per class of the last chunk's length
+    L = (payload + padding + 4096) mod CHUNK: 0 | inside the crypto footer | inside the footer block | exactly the footer
+    block (padding ends the previous chunk) | inside the padding | beyond"""
+    e = k * CHUNK
+    return [(e - 1, 1), (e - 17, 17), (e - 4095, 4095), (e, 0), (e + 1, 4095), (e - 4096 - 17, 17), (e - 4096, 0),
+            (e - 4096 + 5, 17), (e - 4096 + 999, 1), (e - 3995, 4095), (e - 2, 1), (e - 4094, 4095), (e - 4096 + 1, 0), (e - 1, 0)]
+
+
+def _chunk_cases(rng, tier):
+    """directed: envelopes whose encrypted data crosses the 4 MiB / 8 MiB decrypt-chunk boundary (real code vs truth only;
+    the model keeps whole files as lists and is not sent these)"""
+    sizes1, sizes2 = _chunk_sizes(1), _chunk_sizes(2)
+    if tier == "quick":                                  # 4-8 MiB of AES-GCM each: a fixed handful + a seed-dependent rotation
+        k = rng.randrange(len(sizes1))
+        pick = sizes1[:5] + [sizes1[5 + k % 9], sizes2[0], sizes2[1 + k % 13]]
+    else:
+        pick = sizes1 + sizes2 + _chunk_sizes(3)[:4]
+    out = []
+    for i, (plen, padding) in enumerate(pick):
+        r = _no_snan(G.gen_recipe(rng, "quick"))
+        r["plen"], r["padding"], r["fill"] = plen, padding, "rand"
+        r["aad"] = None if i % 2 == 0 else rng.randbytes(16).hex()      # even ones also go through the CLI (which has no AAD)
+        qs = ["dec", "cli"] if i % 2 == 0 else ["dec", "dec_nv", "hist:gg"]
+        out.append({"id": f"c{i}", "kind": "env", "big": True, "recipe": r, "tseed": i, "queries": qs + ["t:cipher"]})
+    return out
+
+
 def generate(seed, tier):
     rng = random.Random(f"C16/{seed}/{tier}")
     n_env = 60 if tier == "quick" else 600
@@ -179,6 +241,8 @@ def generate(seed, tier):
         if i % 2 == 0 or tier != "quick":
             cases.append({"id": f"x{i}", "kind": "info", "recipe": r, "tseed": ts ^ 0x5A5A,
                           "queries": ["t:term", "t:hdr_pad", "t:hdr_fixed", "t:footer_other", "gate", "gate"]})
+    cases += _hist_cases(rng, tier)
+    cases += _chunk_cases(rng, tier)
     if tier != "quick":
         for i, plen in enumerate([4 * 1024 * 1024 - 4096, 4 * 1024 * 1024, 4 * 1024 * 1024 + 1, 8 * 1024 * 1024 + 17]):
             r = G.gen_recipe(rng, "quick")           # crosses the 4 MiB decrypt chunk: real code vs truth only (not sent to the model)
@@ -354,6 +418,42 @@ def _build(case):
         elif q == "aadflip":
             plan.append(("dec", "a", key, b"" if aad else bytes([rng.randrange(256)]), True))
             truth.append("E")
+        elif q.startswith("hist"):
+            # one history on long-lived Envelope objects; expected answers by construction: an intact envelope with the right
+            # key and associated data decrypts to the payload whatever was tried on the object before
+            head, tpl = q.split(":")
+            verify = head == "hist"
+            steps, tfid = [], {}
+            wk = G.pool_key((r["ks"] + 1 + rng.randrange(len(G.KEYSTORE_POOL) - 1)) % len(G.KEYSTORE_POOL))
+            move = None
+            for ch in tpl:
+                if ch == "s":
+                    move = rng.choice([0, 1, G.BLOCK, len(env) - 1, len(env), rng.randrange(len(env) + 1)])
+                    continue
+                if ch == "g":
+                    steps.append(["a", key, aad, move])
+                    truth.append(_crc(payload))
+                elif ch == "k":
+                    steps.append(["a", wk, aad, move])
+                    truth.append("E")
+                elif ch == "a":
+                    bad = (aad[:-1] + bytes([aad[-1] ^ (1 << rng.randrange(8))]) if rng.random() < 0.5 else b"") if aad else bytes([rng.randrange(1, 256)])
+                    steps.append(["a", key, bad, move])
+                    truth.append("E")
+                else:
+                    if ch not in tfid:
+                        alt, _ = G.tamper(b, rng, "cipher" if ch == "t" else "tag")
+                        tfid[ch] = variant(alt)
+                    steps.append([tfid[ch], key, aad, move])
+                    truth.append("E" if verify else None)
+                move = None
+            if not verify:                          # without verification an altered copy yields garbage: no expectation, keep intact ones only
+                keep = [i for i, st in enumerate(steps) if st[0] == "a"]
+                base = len(truth) - len(steps)
+                truth[base:] = [truth[base + i] for i in keep]
+                steps = [steps[i] for i in keep]
+            plan.append(("hist", verify, steps))
+            branches.add("history-" + tpl + ("" if verify else "-noverify"))
         elif q in ("t:tagsize", "t:tagsize+tag"):
             # the tag-size field of the AEAD footer says how much of the tag is used: shrinking it (and then altering a tag byte
             # beyond the new size) alters the authentication tag as consumed -> must be refused
@@ -437,6 +537,19 @@ def impl_run(case, built):
                 _, fid, key, aad, verify = step
                 data = built.files[fid].read_at(0, built.files[fid].size)
                 answers.append(_crc(Envelope(io.BytesIO(data), verify=verify).decrypt(key, aad if aad else None)))
+            elif step[0] == "hist":
+                objs, fhs = {}, {}
+                for j, (fid, key, aad, move) in enumerate(step[2]):
+                    try:
+                        if fid not in objs:
+                            fhs[fid] = io.BytesIO(built.files[fid].read_at(0, built.files[fid].size))
+                            objs[fid] = Envelope(fhs[fid], verify=step[1])
+                        if move is not None:
+                            fhs[fid].seek(move)
+                        answers.append(_crc(objs[fid].decrypt(key, aad if aad else None)))
+                    except Exception as e:  # noqa
+                        answers.append("E")
+                        errors[f"{i}.{j}"] = f"{type(e).__name__}: {e}"[:300]
             elif step[0] == "cli":
                 data = built.files[step[1]].read_at(0, built.files[step[1]].size)
                 r = G.impl_cli(data, step[2])
@@ -504,9 +617,20 @@ class _Table:
         return _image(b"".join(self.entries.values()))
 
 
+def _flat(plan):
+    """the model is a function of (file, key, aad): a history is the list of its single decrypts"""
+    out = []
+    for step in plan:
+        if step[0] == "hist":
+            out += [("dec", fid, key, aad, step[1]) for fid, key, aad, _ in step[2]]
+        else:
+            out.append(step)
+    return out
+
+
 def _commands(built) -> list[str]:
     out = []
-    for step in built.plan:
+    for step in _flat(built.plan):
         if step[0] == "attrs":
             out.append(f"env.attrs {step[1]}")
         elif step[0] == "ks":
@@ -529,7 +653,7 @@ def _seed_table(built) -> _Table:
     table = _Table()
     if getattr(built, "seed", None):
         key, iv = built.seed["key"], built.seed["iv"]
-        for step in built.plan:
+        for step in _flat(built.plan):
             if step[0] == "dec":
                 data = built.files[step[1]].read_at(0, built.files[step[1]].size)
                 table.sha256(CIPHER + step[2])
@@ -588,10 +712,11 @@ def model_lines(case, built):
 def model_parse(case, built, out):
     if case.get("big"):
         return {"answers": None, "wf": None}
-    if not out or len(out) != len(built.plan):
+    plan = _flat(built.plan)
+    if not out or len(out) != len(plan):
         return {"answers": None, "wf": None, "raw": [l[:100] for l in (out or [])]}
     ans = []
-    for step, l in zip(built.plan, out):
+    for step, l in zip(plan, out):
         if step[0] == "attrs":
             if l.startswith("ok "):
                 p = l.split(" ", 4)
